@@ -184,6 +184,19 @@ impl Object {
     pub fn is_error(&self) -> bool {
         matches!(self, Object::Err(_))
     }
+
+    /// A parsed protocol layer (what a packet's 'inner' must be to be written out)
+    pub fn is_packet_layer(&self) -> bool {
+        matches!(
+            self,
+            Object::Eth(_)
+                | Object::Vlan(_)
+                | Object::Ipv4(_)
+                | Object::Ipv6(_)
+                | Object::Udp(_)
+                | Object::Tcp(_)
+        )
+    }
 }
 
 impl fmt::Display for Object {
